@@ -108,7 +108,7 @@ def main_plumbing():
                                        enable_logging_to_file=False, enable_logging_to_terminal=True)
                         m = J.main
                         o_sc, o_mp, o_print = m.start_configurations, m.MasterOfPuppets, getattr(m, "print", None)
-                        m.start_configurations = lambda: ns
+                        m.start_configurations = lambda *a_, **k_: ns
                         m.MasterOfPuppets = Recorder
                         m.print = lambda *a, **k: None
                         try:
@@ -144,7 +144,7 @@ def main_plumbing():
         ns = Namespace(pattern="p", assembly=None, binary=None, all_matches=False, return_only_address=False, macros=None)
         m = J.main
         o_sc = m.start_configurations
-        m.start_configurations = lambda: ns
+        m.start_configurations = lambda *a_, **k_: ns
         m.print = lambda *a, **k: None
         try:
             m.main()
@@ -204,12 +204,34 @@ def logger_cfg():
             obs.append(simple_ob(f"configure_logger:debug={int(debug)}:POST", "jasm.logging_config.configure_logger", "POST",
                                  "with or without --debug the INFO records ('Matched address', 'RESULT') reach exactly one terminal handler",
                                  bool(ok), P, detail=f"level={lg.level} handlers={[(h, h.level, h.filters) for h in lg.handlers]}", witness=f"debug={debug}"))
+            # a sequence of records, with consecutive repetitions (matches at the same address in different sections, the same
+            # text twice): every record is written, in order -- the terminal output is the list the API returns
+            import io
+            buf = io.StringIO()
+            for h in hs:
+                h.setStream(buf)
+            seq = [("Matched address: %s", ("0",)), ("Matched address: %s", ("0",)), ("Matched address: %s", ("401000",)),
+                   ("Matched address: %s", ("0::push,%rbp,|",)), ("Matched address: %s", ("0::push,%rbp,|",)), ("RESULT: Pattern found\n", ())]
+            old_disable = logging.root.manager.disable
+            logging.disable(logging.NOTSET)
+            try:
+                for msg, args in seq:
+                    lg.handle(logging.LogRecord(lg.name, logging.INFO, "x", 1, msg, args, None))
+            finally:
+                logging.disable(old_disable)
+            written = [ln.split(" - INFO - ", 1)[-1] for ln in buf.getvalue().split("\n") if "Matched address" in ln or "RESULT" in ln]
+            want = [m_ % a_ if a_ else m_.strip() for m_, a_ in seq]
+            obs.append(simple_ob(f"configure_logger:debug={int(debug)}:POST-sequence", "jasm.logging_config.configure_logger", "POST",
+                                 "every INFO record of a run is written to the terminal, in order, repeated ones included (one line per matched address)",
+                                 [w.split("Matched address: ")[-1] if "Matched" in w else w for w in written] ==
+                                 [w.split("Matched address: ")[-1] if "Matched" in w else w for w in want], P,
+                                 detail=f"written={written} want={want}", witness=repr(written)[:120]))
         # the CLI defaults are info=True / terminal=True
         calls = []
         m = J.main
         o_pa, o_cl = m.parse_args_from_console, m.configure_logger
-        m.parse_args_from_console = lambda: Namespace(debug=False, info=True, enable_logging_to_file=True, enable_logging_to_terminal=True)
-        m.configure_logger = lambda **kw: calls.append(kw)
+        m.parse_args_from_console = lambda *a_, **k_: Namespace(debug=False, info=True, enable_logging_to_file=True, enable_logging_to_terminal=True)
+        m.configure_logger = lambda *a_, **kw: calls.append(kw)
         try:
             m.start_configurations()
         finally:
